@@ -98,6 +98,7 @@ def tableau_replay(circ, shot):
     k = 0
     free = 0
     rec = []
+    chain_fired = False
 
     def measure(pauli: "stim.PauliString", invert: bool, reset_to=None):
         nonlocal k, free
@@ -169,6 +170,16 @@ def tableau_replay(circ, shot):
                         return False, free, f"deterministic MPP result {k} differs"
                     cur = stim.PauliString(n)
                     inv = False
+            continue
+        if name in ("E", "CORRELATED_ERROR", "ELSE_CORRELATED_ERROR"):
+            if args[0] not in (0.0, 1.0):
+                raise NotImplementedError("probabilistic channel in tableau replay")
+            if name != "ELSE_CORRELATED_ERROR":
+                chain_fired = False
+            if args[0] == 1.0 and not chain_fired:
+                chain_fired = True
+                for t in ts:
+                    getattr(sim, "x" if t.is_x_target else "y" if t.is_y_target else "z")(t.value)
             continue
         if name in ("X_ERROR", "Y_ERROR", "Z_ERROR"):
             if args[0] == 1.0:
@@ -392,6 +403,21 @@ def run(ctx: Ctx) -> int:
                 if rng.random() < 0.5:
                     out.append(f"{['X_ERROR', 'Z_ERROR', 'Y_ERROR'][int(rng.integers(0, 3))]}({int(rng.integers(0, 2))}) {int(rng.integers(0, nq))}")
             check_shots(ctx, "\n".join(out[:-1] + [out[-1]]) if out[-1].startswith("M ") else "\n".join(out), f"clifford-dense-noise-{nq}q", 4)
+    # deterministic correlated-error chains (3..6 links, random Pauli products, probabilities 0/1) inside Clifford circuits
+    for rep in range(10 if quick else 120):
+        if time.time() > t_end + 110:
+            break
+        nq = int(rng.integers(3, 7))
+        pre = gen_clifford(rng, nq, depth=nq, with_feedback=False).split("\n")[:-1]
+        pre = [l for l in pre if not l.startswith(("M", "R"))]
+        links = []
+        for j in range(int(rng.integers(3, 7))):
+            qs = rng.choice(nq, size=int(rng.integers(1, 3)), replace=False)
+            links.append(f"{'E' if j == 0 else 'ELSE_CORRELATED_ERROR'}({int(rng.random() < (0.3 if j < 2 else 0.6))}) " +
+                         " ".join(f"{'XYZ'[int(rng.integers(0, 3))]}{int(q)}" for q in qs))
+        text = "\n".join(pre + links + ["M " + " ".join(map(str, range(nq)))])
+        check_shots(ctx, text, "clifford-correlated-chain", 4)
+    check_shots(ctx, "E(0) X0 X2\nELSE_CORRELATED_ERROR(1) X1\nELSE_CORRELATED_ERROR(1) X0\nM 0 1 2", "clifford-correlated-chain", 2)
     nm = check_mechanisms(ctx, rng, 4 if quick else 60) if time.time() < t_end + 120 else 0
     ctx.cov["mechanisms_checked"] = nm
     if ctx.broken and not ctx.violations:
